@@ -587,6 +587,20 @@ impl Tcp {
 }
 
 /// Returns whether the given bind addr can accept a packet routed to the given dst
+#[cfg(turmoil_verif)]
+impl Udp {
+    pub(crate) fn verif_bind_count(&self) -> usize {
+        self.binds.len()
+    }
+}
+
+#[cfg(turmoil_verif)]
+impl Tcp {
+    pub(crate) fn verif_bind_count(&self) -> usize {
+        self.binds.len()
+    }
+}
+
 pub fn matches(bind: SocketAddr, dst: SocketAddr) -> bool {
     if bind.ip().is_unspecified() && bind.port() == dst.port() {
         return true;
